@@ -730,6 +730,74 @@ func scenarioCloseAtOnce(c *Ctx, cached bool, interval time.Duration) {
 	c.Cov.Schedules++
 }
 
+// scenarioManyClosers: n goroutines call the root's Close; the first is held inside the reporter's final Flush (the
+// shutdown is in progress) while the others arrive and wait for it; when the Flush is let go EVERY call returns
+// ("any number of concurrent Close callers"), the waiting ones with nil.
+func scenarioManyClosers(c *Ctx, cached bool, n int) {
+	s := NewSched(nil)
+	s.ParkOnT = func(string, string) bool { return false }
+	w := newWorld(cached, 0, 1, true)
+	w.inc(w.root.Counter("c"), "c", 3)
+	entered := make(chan struct{})
+	release := make(chan struct{})
+	var once sync.Once
+	w.log().Pre = func(e *Ev) {
+		if e.Kind == "flush" {
+			once.Do(func() {
+				close(entered)
+				<-release
+			})
+		}
+	}
+	line := fmt.Sprintf("cached=%v; %d goroutines call the root's Close; the first is held inside the reporter's final Flush until the others have arrived, then let go", cached, n)
+	w.trace = []string{line}
+	type res struct {
+		i   int
+		err error
+	}
+	done := make(chan res, n)
+	go func() { done <- res{0, w.closer.Close()} }()
+	select {
+	case <-entered:
+	case <-time.After(5 * time.Second):
+		close(release)
+		s.Finish()
+		c.Cov.Fail(Failure{Kind: "crash", Clause: "hang", Signature: "c08-many-closers-no-final-flush", Line: line, Reply: "the first Close never reached the reporter's Flush"})
+		return
+	}
+	for i := 1; i < n; i++ {
+		i := i
+		go func() { done <- res{i, w.closer.Close()} }()
+	}
+	time.Sleep(30 * time.Millisecond) // the others reach their wait (arriving later is just as legal)
+	close(release)
+	returned := 0
+	var errs []string
+	deadline := time.After(5 * time.Second)
+loop:
+	for returned < n {
+		select {
+		case r := <-done:
+			returned++
+			if r.err != nil {
+				errs = append(errs, fmt.Sprintf("caller %d: %v", r.i, r.err))
+			}
+		case <-deadline:
+			break loop
+		}
+	}
+	s.Finish()
+	if returned != n {
+		c.Cov.Fail(Failure{Kind: "violated", Clause: "every-close-call-returns", Signature: "c08-many-closers-some-never-return", Line: line,
+			Reply: fmt.Sprintf("5 s after the shutdown finished only %d of %d Close calls have returned", returned, n)})
+	} else if len(errs) > 0 {
+		c.Cov.Fail(Failure{Kind: "violated", Clause: "close-idempotent", Signature: "c08-many-closers-error", Line: line, Reply: strings.Join(errs, "; ")})
+	}
+	c.Cov.Hit(fmt.Sprintf("many-closers.%d", n))
+	c.Cov.Eval(line, true)
+	c.Cov.Schedules++
+}
+
 func suiteC08Conc(c *Ctx) {
 	c.Cov.Rule = "scripted schedule (Close called while a periodic pass of the real report loop goroutine is part-way through the registry; Close parked between close(done) and its final pass) and free-running stress (4 recording goroutines, ticker 20-200us, 1-8 shards, plain and cached closable reporters) ; oracle: conservation of everything recorded before Close, last calls are Flush then exactly one reporter Close, nothing afterwards, second Close nil and silent, SubScope after Close inert, no report-loop goroutine left; every case nontrivial; distinct by trace"
 	for _, cached := range []bool{false, true} {
@@ -737,6 +805,9 @@ func suiteC08Conc(c *Ctx) {
 			for k := 0; k < 5; k++ {
 				scenarioCloseAtOnce(c, cached, iv)
 			}
+		}
+		for _, n := range []int{2, 3, 5} {
+			scenarioManyClosers(c, cached, n)
 		}
 		scenarioCloseDuringPass(c, cached)
 		scenarioReacquireDuringClose(c, cached, true)
